@@ -90,6 +90,7 @@ package alg
 //@   ensures double ==> (subtxt(result, len(buf), 3) == txt("\"\\\"") && subtxt(result, len(result) - 3, 3) == txt("\\\"\""))
 //@   loop 0: invariant 0 <= nb && nb <= len(val) && len(val) > 0
 //@   loop 0: invariant forall j int :: (0 <= j && j < qlen(double)) ==> buf[len(buf0) + j] == pre(buf[len(buf0) + j])
+//@   loop 0: invariant subtxt(buf, len(buf0), qlen(double)) == pre(subtxt(buf, len(buf0), qlen(double)))
 //@   loop 0: invariant nb > 0 ==> ptrindex(sp) == ptrlo(sp) + len(val) - nb
 //@   loop 0: invariant ptrhi(sp) == ptrlo(sp) + len(val)
 //@   loop 0: invariant len(buf0) + qlen(double) == pre(len(buf)) && pre(len(buf)) <= len(buf) && base(buf) != 0 && (base(buf) == base(buf0) || fresh(buf)) && cap(buf) - len(buf) >= 1
